@@ -1,0 +1,96 @@
+//go:build verif
+
+package server
+
+import (
+	"net/http"
+	"sort"
+
+	cdcreader "github.com/zilliztech/milvus-cdc/core/reader"
+	serverapi "github.com/zilliztech/milvus-cdc/server/api"
+	"github.com/zilliztech/milvus-cdc/server/model"
+	"github.com/zilliztech/milvus-cdc/server/model/meta"
+)
+
+// Everything in this file exists only in builds with the verif tag: construction
+// of the service around injected collaborators (no dial, no connection check)
+// and a read-only snapshot of its in-memory bookkeeping for a simulation harness.
+
+func NewMetaCDCForVerif(serverConfig *CDCServerConfig, factory serverapi.MetaStoreFactory, creator cdcreader.FactoryCreator) *MetaCDC {
+	if serverConfig.MaxNameLength == 0 {
+		serverConfig.MaxNameLength = 256
+	}
+	cdc := &MetaCDC{
+		metaStoreFactory: factory,
+		config:           serverConfig,
+		mqFactoryCreator: creator,
+		rootPath:         serverConfig.MetaStoreConfig.RootPath,
+	}
+	cdc.collectionNames.data = make(map[string][]string)
+	cdc.collectionNames.excludeData = make(map[string][]string)
+	cdc.collectionNames.extraInfos = make(map[string]model.ExtraInfo)
+	cdc.collectionNames.nameMapping = make(map[string]map[string]string)
+	cdc.cdcTasks.data = make(map[string]*meta.TaskInfo)
+	cdc.replicateEntityMap.data = make(map[string]*ReplicateEntity)
+	return cdc
+}
+
+func NewCDCHandlerForVerif(api CDCService, serverConfig *CDCServerConfig) http.Handler {
+	s := &CDCServer{api: api, serverConfig: serverConfig}
+	return s.getCDCHandler()
+}
+
+type VerifTask struct {
+	State  string
+	Reason string
+}
+
+type VerifEntity struct {
+	RefCnt    int32
+	QuitFuncs []string
+}
+
+type VerifSnapshot struct {
+	CollectionNames map[string][]string
+	ExcludeData     map[string][]string
+	EnableUserRole  map[string]bool
+	Tasks           map[string]VerifTask
+	Entities        map[string]VerifEntity
+}
+
+func (e *MetaCDC) VerifSnapshot() VerifSnapshot {
+	s := VerifSnapshot{CollectionNames: map[string][]string{}, ExcludeData: map[string][]string{}, EnableUserRole: map[string]bool{},
+		Tasks: map[string]VerifTask{}, Entities: map[string]VerifEntity{}}
+	e.collectionNames.RLock()
+	for k, v := range e.collectionNames.data {
+		c := append([]string(nil), v...)
+		sort.Strings(c)
+		s.CollectionNames[k] = c
+	}
+	for k, v := range e.collectionNames.excludeData {
+		c := append([]string(nil), v...)
+		sort.Strings(c)
+		s.ExcludeData[k] = c
+	}
+	for k, v := range e.collectionNames.extraInfos {
+		s.EnableUserRole[k] = v.EnableUserRole
+	}
+	e.collectionNames.RUnlock()
+	e.cdcTasks.RLock()
+	for k, v := range e.cdcTasks.data {
+		s.Tasks[k] = VerifTask{State: v.State.String(), Reason: v.Reason}
+	}
+	e.cdcTasks.RUnlock()
+	e.replicateEntityMap.RLock()
+	for k, v := range e.replicateEntityMap.data {
+		ent := VerifEntity{RefCnt: v.refCnt.Load()}
+		v.taskQuitFuncs.Range(func(id string, _ func()) bool {
+			ent.QuitFuncs = append(ent.QuitFuncs, id)
+			return true
+		})
+		sort.Strings(ent.QuitFuncs)
+		s.Entities[k] = ent
+	}
+	e.replicateEntityMap.RUnlock()
+	return s
+}
